@@ -26,8 +26,9 @@ RULE = ('A case is (module, optimize). Modules: the six shipped ones and random 
 ASSUMPTIONS = ['generated library arguments are well-formed patterns (positive mu, no constraint-violating plugs): the toolkit has no judgement for those and the resulting rejections are recorded under C04/C07']
 FLOORS = {'quick': {'cases': 1500, 'accepted': 1400, 'modules_with_2_claims': 300, 'modules_with_imports': 200, 'modules_with_generalization': 50,
                     'optimised_with_save_load': 100, 'modules_with_unsorted_instantiation_keys': 30, 'emitted:ESubst': 10, 'emitted:SSubst': 10, 'shipped_cases': 12, 'binary_runs': 100,
-                    **{f'emitted:{n}': 20 for n in ('EVar', 'SVar', 'Symbol', 'Implies', 'App', 'Exists', 'Mu', 'MetaVar', 'CleanMetaVar', 'Prop1', 'Prop2', 'Prop3',
-                                                    'Quantifier', 'ModusPonens', 'Generalization', 'Instantiate', 'Save', 'Load', 'Publish')}}}
+                    **{f'emitted:{n}': 20 for n in ('EVar', 'SVar', 'Symbol', 'Implies', 'App', 'Exists', 'Mu', 'CleanMetaVar', 'Prop1', 'Prop2', 'Prop3',
+                                                    'Quantifier', 'ModusPonens', 'Generalization', 'Instantiate', 'Save', 'Load', 'Publish')},
+                    'emitted:MetaVar': 2}}
 FLOORS['thorough'] = dict(FLOORS['quick'], cases=30000, accepted=29000)
 
 
